@@ -15,7 +15,14 @@
 //   transport Write call number i accepts min(m, len) bytes and reports term (0: short write, no
 //   error).  Session: WriteC0S0, WriteC1S1, WriteC2S2 (hs=1), then WriteMessage per message.
 //   Observation: (0 (n c peerlen) ...) per i.
+//   Observation: (0 (n c peerlen ntx) ...) per i; ntx = transactions registered in the Protocol at the end.
 // msg = (fmt cid type ts sid body); fmt 1/2: ts is the delta; body = x<hex> | (len seed).
+// In a write case an operation is a msg (sent with WriteMessage) or a packet sent with WritePacket:
+//   (9 kind tid named sid arg seed), kind 0 connect, 1 createStream, 2 connect response,
+//   3 createStream response, 4 call (onStatus), 5 publish, 6 play, 7 SetChunkSize,
+//   8 WindowAcknowledgementSize, 9 SetPeerBandwidth, 10 UserControl (tid = event type);
+//   tid = TransactionID, named=0 clears the CommandName, arg = length of the string the packet carries
+//   (filled from seed) or the integer field of a control packet.
 package rtmp
 
 import (
@@ -25,9 +32,11 @@ import (
 	"net"
 	"os"
 	"syscall"
+	"math"
 	"math/rand"
 	"testing"
 
+	"github.com/ossrs/go-oryx-lib/amf0"
 	oe "github.com/ossrs/go-oryx-lib/errors"
 )
 
@@ -228,14 +237,186 @@ type vC08Msg struct {
 	ts     uint64 // fmt 0: timestamp, fmt 1/2: delta
 	sid    uint32
 	body   []byte
+	pkt    *vC08Pkt // non-nil: sent with WritePacket
 }
 
-func vC08ParseMsgs(s vSx) ([]vC08Msg, bool) {
+// a packet of a write case
+type vC08Pkt struct {
+	kind, tid int
+	named     bool
+	arg, seed int
+}
+
+func (p *vC08Pkt) str() string { return string(vC08Fill(p.arg, p.seed)) }
+
+func (p *vC08Pkt) name() string {
+	if !p.named {
+		return ""
+	}
+	return []string{"connect", "createStream", "_result", "_result", "onStatus", "publish", "play"}[p.kind]
+}
+
+// is it a request whose transaction WritePacket registers?
+func (p *vC08Pkt) request() bool { return p.kind <= 1 && p.tid > 0 && p.named }
+
+// the packet, through the public constructors and fields
+func (p *vC08Pkt) build() Packet {
+	tid := amf0.Number(float64(p.tid))
+	switch p.kind {
+	case 0:
+		k := NewConnectAppPacket()
+		k.CommandName, k.TransactionID = amf0.String(p.name()), tid
+		k.CommandObject.Set("tcUrl", amf0.NewString(p.str()))
+		return k
+	case 1:
+		k := NewCreateStreamPacket()
+		k.CommandName, k.TransactionID = amf0.String(p.name()), tid
+		return k
+	case 2:
+		k := NewConnectAppResPacket(tid)
+		k.CommandName = amf0.String(p.name())
+		if p.arg > 0 {
+			k.Args = amf0.NewObject()
+			k.Args.Set("d", amf0.NewString(p.str()))
+		}
+		return k
+	case 3:
+		k := NewCreateStreamResPacket(tid)
+		k.CommandName = amf0.String(p.name())
+		k.StreamID = amf0.Number(float64(p.arg))
+		return k
+	case 4:
+		k := NewCallPacket()
+		k.CommandName, k.TransactionID = amf0.String(p.name()), tid
+		k.CommandObject = amf0.NewNull()
+		if p.arg > 0 {
+			k.Args = amf0.NewString(p.str())
+		}
+		return k
+	case 5:
+		k := NewPublishPacket()
+		k.CommandName, k.TransactionID = amf0.String(p.name()), tid
+		k.StreamName = amf0.String(p.str())
+		return k
+	case 6:
+		k := NewPlayPacket()
+		k.CommandName, k.TransactionID = amf0.String(p.name()), tid
+		k.StreamName = amf0.String(p.str())
+		return k
+	case 7:
+		k := NewSetChunkSize()
+		k.ChunkSize = uint32(p.arg)
+		return k
+	case 8:
+		k := NewWindowAcknowledgementSize()
+		k.AckSize = uint32(p.arg)
+		return k
+	case 9:
+		k := NewSetPeerBandwidth()
+		k.Bandwidth, k.LimitType = uint32(p.arg), LimitType(p.tid%3)
+		return k
+	}
+	k := NewUserControl()
+	k.EventType, k.EventData, k.ExtraData = EventType(p.tid), int32(p.arg), int32(p.seed)
+	return k
+}
+
+// reference marshaller (AMF0 spec 2.2 number, 2.4 string, 2.5 object, 2.7 null; RTMP 1.0 section 5.4
+// protocol control messages, 7.1.7 user control): the message WritePacket must put on the wire
+func vC08AmfStr(s string) []byte {
+	return append([]byte{2, byte(len(s) >> 8), byte(len(s))}, s...)
+}
+
+func vC08AmfNum(f float64) []byte {
+	b := math.Float64bits(f)
+	return []byte{0, byte(b >> 56), byte(b >> 48), byte(b >> 40), byte(b >> 32), byte(b >> 24), byte(b >> 16), byte(b >> 8), byte(b)}
+}
+
+func vC08AmfObj(key string, val []byte) []byte {
+	o := []byte{3}
+	if key != "" {
+		o = append(o, byte(len(key)>>8), byte(len(key)))
+		o = append(append(o, key...), val...)
+	}
+	return append(o, 0, 0, 9)
+}
+
+func vC08Be32(v uint32) []byte { return []byte{byte(v >> 24), byte(v >> 16), byte(v >> 8), byte(v)} }
+
+func (p *vC08Pkt) ref() (cid uint32, typ byte, payload []byte) {
+	if p.kind <= 6 {
+		b := append(vC08AmfStr(p.name()), vC08AmfNum(float64(p.tid))...)
+		switch p.kind {
+		case 0:
+			b = append(b, vC08AmfObj("tcUrl", vC08AmfStr(p.str()))...)
+		case 1:
+			b = append(b, 5)
+		case 2:
+			b = append(b, vC08AmfObj("", nil)...)
+			if p.arg > 0 {
+				b = append(b, vC08AmfObj("d", vC08AmfStr(p.str()))...)
+			}
+		case 3:
+			b = append(append(b, 5), vC08AmfNum(float64(p.arg))...)
+		case 4:
+			b = append(b, 5)
+			if p.arg > 0 {
+				b = append(b, vC08AmfStr(p.str())...)
+			}
+		case 5:
+			b = append(append(append(b, 5), vC08AmfStr(p.str())...), vC08AmfStr("live")...)
+		case 6:
+			b = append(append(b, 5), vC08AmfStr(p.str())...)
+		}
+		return 3, 20, b
+	}
+	switch p.kind {
+	case 7:
+		return 2, 1, vC08Be32(uint32(p.arg))
+	case 8:
+		return 2, 5, vC08Be32(uint32(p.arg))
+	case 9:
+		return 2, 6, append(vC08Be32(uint32(p.arg)), byte(p.tid%3))
+	}
+	b := []byte{byte(p.tid >> 8), byte(p.tid)}
+	if p.tid == 0x1a {
+		return 2, 4, append(b, byte(p.arg))
+	}
+	b = append(b, vC08Be32(uint32(p.arg))...)
+	if p.tid == 3 {
+		b = append(b, vC08Be32(uint32(p.seed))...)
+	}
+	return 2, 4, b
+}
+
+func vC08ParsePkt(x vSx) (vC08Msg, bool) {
+	for i := 0; i < 7; i++ {
+		if !x.l[i].isInt() || x.l[i].z.Sign() < 0 || !x.l[i].z.IsInt64() || x.l[i].i64() > 0xffffffff {
+			return vC08Msg{}, false
+		}
+	}
+	p := &vC08Pkt{x.l[1].int(), x.l[2].int(), x.l[3].int() != 0, x.l[5].int(), x.l[6].int()}
+	if p.kind > 10 || p.tid > 0xffff || (p.kind <= 6 && p.arg > 65000) || p.seed > 0x7fffffff {
+		return vC08Msg{}, false
+	}
+	cid, typ, body := p.ref()
+	return vC08Msg{0, cid, typ, 0, uint32(x.l[4].i64()), body, p}, true
+}
+
+func vC08ParseMsgs(s vSx, allowPkt bool) ([]vC08Msg, bool) {
 	if !s.isList() {
 		return nil, false
 	}
 	var ms []vC08Msg
 	for _, x := range s.l {
+		if allowPkt && x.isList() && len(x.l) == 7 && x.l[0].isInt() && x.l[0].int() == 9 {
+			m, ok := vC08ParsePkt(x)
+			if !ok {
+				return nil, false
+			}
+			ms = append(ms, m)
+			continue
+		}
 		if !x.isList() || len(x.l) != 6 {
 			return nil, false
 		}
@@ -248,7 +429,7 @@ func vC08ParseMsgs(s vSx) ([]vC08Msg, bool) {
 		if !ok || x.l[0].int() > 2 || x.l[1].i64() < 2 || x.l[1].i64() > 65599 || x.l[2].int() > 255 || x.l[3].i64() > 0xffffffff || x.l[4].i64() > 0xffffffff {
 			return nil, false
 		}
-		ms = append(ms, vC08Msg{x.l[0].int(), uint32(x.l[1].i64()), byte(x.l[2].int()), uint64(x.l[3].i64()), uint32(x.l[4].i64()), b})
+		ms = append(ms, vC08Msg{x.l[0].int(), uint32(x.l[1].i64()), byte(x.l[2].int()), uint64(x.l[3].i64()), uint32(x.l[4].i64()), b, nil})
 	}
 	return ms, true
 }
@@ -412,7 +593,7 @@ func vC08RunRtmpRead(c vSx, starts *[]int) (obs vSx, fails []vC08Fail, nontrivia
 		return bad, nil, false, -1
 	}
 	hs := c.l[2].int() != 0
-	ms, ok := vC08ParseMsgs(c.l[3])
+	ms, ok := vC08ParseMsgs(c.l[3], false)
 	termID := c.l[4].int()
 	if !ok || termID < 0 || termID >= len(vC08Sentinels) {
 		return bad, nil, false, -1
@@ -590,6 +771,8 @@ type vC08WSession struct {
 	w     *vC08Writer
 	opEnd []int // number of transport Write calls made when operation j returned
 	panic string
+	ntx   int    // transactions registered in the Protocol when the session ended
+	stale string // a request whose WritePacket failed and which is still registered
 }
 
 func vC08WriteSession(hs bool, ms []vC08Msg, failAt, m int, term error, transient bool) (s vC08WSession) {
@@ -621,8 +804,16 @@ func vC08WriteSession(hs bool, ms []vC08Msg, failAt, m int, term error, transien
 		s.opEnd = append(s.opEnd, len(w.sizes))
 	}
 	p := NewProtocol(&vC08RW{&vC08Reader{term: io.EOF}, w})
+	defer func() { s.ntx = len(p.input.transactions) }()
 	for _, x := range ms {
-		if x.typ == 1 && x.cid == 2 && x.ts == 0 && len(x.body) == 4 {
+		if x.pkt != nil {
+			if s.err = p.WritePacket(x.pkt.build(), int(x.sid)); s.err != nil {
+				if _, ok := p.input.transactions[amf0.Number(float64(x.pkt.tid))]; ok && x.pkt.request() {
+					s.stale = fmt.Sprintf("WritePacket(%s, tid %d) failed with %v, the request is still registered", x.pkt.name(), x.pkt.tid, s.err)
+				}
+				return
+			}
+		} else if x.typ == 1 && x.cid == 2 && x.ts == 0 && len(x.body) == 4 {
 			// WritePacket: marshal, register, WriteMessage, one more wrapping layer
 			pkt := NewSetChunkSize()
 			pkt.ChunkSize = uint32(x.body[0])<<24 | uint32(x.body[1])<<16 | uint32(x.body[2])<<8 | uint32(x.body[3])
@@ -654,7 +845,7 @@ func vC08RunRtmpWrite(c vSx) (obs vSx, fails []vC08Fail, nontrivial bool, failK 
 	}
 	transient := len(c.l) == 8 && c.l[7].isInt() && c.l[7].int() == 0
 	hs := c.l[2].int() != 0
-	ms, ok := vC08ParseMsgs(c.l[3])
+	ms, ok := vC08ParseMsgs(c.l[3], true)
 	termID := c.l[4].int()
 	if !ok || termID < 0 || termID >= len(vC08Sentinels) {
 		return bad, nil, false, -1
@@ -704,10 +895,13 @@ func vC08RunRtmpWrite(c vSx) (obs vSx, fails []vC08Fail, nontrivial bool, failK 
 	for _, fi := range is {
 		s := vC08WriteSession(hs, ms, fi, m, term, transient)
 		cid := vC08CauseID(s.err)
-		out = append(out, vL(vI(s.n), vI(cid), vI(len(s.w.buf))))
+		out = append(out, vL(vI(s.n), vI(cid), vI(len(s.w.buf)), vI(s.ntx)))
 		if s.panic != "" {
 			fail(fi, "c08-panic", s.panic)
 			continue
+		}
+		if s.stale != "" {
+			fail(fi, "c08-rollback", s.stale)
 		}
 		if transient && term == nil {
 			continue // a transient short write without error: bufio may legitimately write the rest; no panic is all we ask
@@ -769,6 +963,14 @@ func vC08GenMsgs(r *vRng, small bool, forWrite bool) (msgs []vSx, wireLen int) {
 	g := vC08Gen{map[int]int{}, map[int]int{}}
 	chunk := 128
 	for i := 0; i < nm; i++ {
+		if forWrite && r.chance(2, 5) {
+			op, set := vC08GenPkt(r, r.intn(11), small)
+			msgs = append(msgs, op)
+			if set > 0 {
+				chunk = set
+			}
+			continue
+		}
 		cid := r.pickInt(2, 3, 4, 5, 6, 7, 8, 8, 63)
 		if r.chance(1, 8) {
 			cid = r.pickInt(64, 65, 319, 320, 321, 65599)
@@ -843,9 +1045,59 @@ func vC08GenMsgs(r *vRng, small bool, forWrite bool) (msgs []vSx, wireLen int) {
 			chunk = setChunk
 		}
 	}
-	ms, _ := vC08ParseMsgs(vLs(msgs))
+	ms, _ := vC08ParseMsgs(vLs(msgs), true)
 	w, _, _, _ := vC08RefChunks(ms, false)
 	return msgs, len(w)
+}
+
+// a WritePacket operation of the given kind; set = the chunk size it announces (Set Chunk Size)
+func vC08GenPkt(r *vRng, kind int, small bool) (op vSx, set int) {
+	tid := r.pickInt(0, 1, 1, 1, 2, 2, 3, 7)
+	named := 1
+	if kind <= 6 && r.chance(1, 8) {
+		named = 0
+	}
+	arg := 0
+	switch {
+	case kind <= 6:
+		arg = r.pickInt(0, 1, 5, 20, 90, 128, 129, 200, 300)
+		if !small && r.chance(1, 4) {
+			arg = r.pickInt(4000, 4096, 5000, 9000, 65000)
+		}
+	case kind == 7:
+		arg = r.pickInt(0, 1, 2, 64, 127, 128, 129, 200, 4096, 5000, 65536, 0x7fffffff)
+		set = arg
+	default:
+		arg = r.pickInt(0, 1, 2500000, 0x7fffffff, 0xffffffff)
+	}
+	if kind == 10 {
+		tid = r.pickInt(0, 1, 3, 3, 4, 6, 7, 0x1a, 0x1a)
+	}
+	return vL(vZ(9), vI(kind), vI(tid), vI(named), vI(r.pickInt(0, 1, 1, 0x01020304)), vI(arg), vI(r.intn(256))), set
+}
+
+// a session that goes through every public write entry point: WritePacket with each packet kind, in a
+// random order, requests repeated with other transaction ids, and WriteMessage in between
+func vC08GenPktSession(r *vRng, small bool) []vSx {
+	kinds := []int{0, 1, 2, 3, 4, 5, 6, 7, 8, 9, 10, 0, 1, -1, -1}
+	for i := len(kinds) - 1; i > 0; i-- {
+		j := r.intn(i + 1)
+		kinds[i], kinds[j] = kinds[j], kinds[i]
+	}
+	if small {
+		kinds = kinds[:r.rng(1, 4)]
+	}
+	var msgs []vSx
+	for _, kd := range kinds {
+		if kd < 0 {
+			n := r.pickInt(1, 40, 128, 129, 300)
+			msgs = append(msgs, vL(vZ(0), vI(r.pickInt(2, 3, 5, 64, 320)), vI(r.pickInt(8, 9, 18, 20)), vI(r.intn(100000)), vI(1), vL(vI(n), vI(r.intn(256)))))
+			continue
+		}
+		op, _ := vC08GenPkt(r, kd, small)
+		msgs = append(msgs, op)
+	}
+	return msgs
 }
 
 func vC08GenSegs(r *vRng) vSx {
@@ -956,7 +1208,7 @@ func vC08Thin(k *vKit, set []vSx, lim int) []vSx {
 
 // end offsets of the messages of a generated session (marks for a thinned sweep)
 func vC08MsgEnds(msgs []vSx) []int {
-	ms, _ := vC08ParseMsgs(vLs(msgs))
+	ms, _ := vC08ParseMsgs(vLs(msgs), false)
 	_, ends, _, _ := vC08RefChunks(ms, false)
 	out := append([]int{0}, ends...)
 	return append(out, vC08Marks...)
@@ -982,6 +1234,20 @@ func TestVerifC08Rtmp(t *testing.T) {
 		if write {
 			obs, fails, nt, fk = vC08RunRtmpWrite(c)
 			k.count("rtmp", "write-cases")
+			if len(c.l) > 3 {
+				if ms, ok := vC08ParseMsgs(c.l[3], true); ok {
+					for _, x := range ms {
+						switch {
+						case x.pkt == nil:
+							k.count("rtmp-entry", "WriteMessage")
+						case x.pkt.request():
+							k.count("rtmp-entry", "WritePacket-request-"+x.pkt.name())
+						default:
+							k.count("rtmp-entry", fmt.Sprintf("WritePacket-kind-%d", x.pkt.kind))
+						}
+					}
+				}
+			}
 		} else {
 			obs, fails, nt, fk = vC08RunRtmpRead(c, nil)
 			k.count("rtmp", "read-cases")
@@ -1062,7 +1328,7 @@ func TestVerifC08Rtmp(t *testing.T) {
 			marks = append(marks, 1, 1537, 3073)
 		}
 		marks = append(marks, 0, base+wl)
-		ms, _ := vC08ParseMsgs(vLs(msgs))
+		ms, _ := vC08ParseMsgs(vLs(msgs), false)
 		_, ends, _, _ := vC08RefChunks(ms, false)
 		for _, e := range ends {
 			marks = append(marks, base+e)
@@ -1098,7 +1364,11 @@ func TestVerifC08Rtmp(t *testing.T) {
 			runOne(rdCase(hs, msgs, term, k.rnd.intn(4), segs, vLs(set)), false)
 		}
 	}
-	// writes: a fault at every transport Write call index
+	// writes: a fault at every transport Write call index; the write sweeps keep a quarter of the
+	// entry's byte budget for themselves whatever the read sweeps have spent
+	if vC08Spent > vC08EntryCap(k)*3/4 {
+		vC08Spent = vC08EntryCap(k) * 3 / 4
+	}
 	nW := k.N(60, 1500)
 	for i := 0; i < nW; i++ {
 		msgs, _ := vC08GenMsgs(k.rnd, i%3 != 0, true)
@@ -1108,7 +1378,10 @@ func TestVerifC08Rtmp(t *testing.T) {
 		}
 		term := k.rnd.pickInt(0, 1, 2, 4, 4, 5, 6, 7, 8, 9)
 		m := k.rnd.pickInt(0, 0, 1, 3, 10, 12, 100, 4095, 4096, 4097, 1<<30)
-		ms, _ := vC08ParseMsgs(vLs(msgs))
+		if i%5 == 1 {
+			msgs = vC08GenPktSession(k.rnd, i%3 != 0)
+		}
+		ms, _ := vC08ParseMsgs(vLs(msgs), true)
 		free := vC08WriteSession(hs == 1, ms, -1, 0, nil, false)
 		nc := len(free.w.sizes)
 		is := vL(vZ(0), vZ(0), vI(nc))
